@@ -225,11 +225,14 @@ def scenarios(thorough, rnd):
     for o in outs:
         for wrap in (False, True):
             scs.append({"pairs": [("choices", o)], "wrap": wrap, "eval": True})
-    multi = 600 if thorough else 120
+    multi = 4000 if thorough else 120
     for _ in range(multi):
         k = rnd.choice((2, 2, 3))
         os_ = rnd.sample(outs, k)
         scs.append({"pairs": [(rnd.choice(ins), o) for o in os_], "wrap": rnd.random() < 0.5, "eval": False})
+    # an earlier pair whose input is named like a sibling that a later pair addresses (always exercised, see the known finding)
+    scs.append({"pairs": [("helper.same", "B.battr"), ("fin.fkw", "B.same")], "wrap": False, "eval": False})
+    scs.append({"pairs": [("helper.same", "fout.q"), ("fin.farg", "fout.same")], "wrap": True, "eval": False})
     for i in BOGUS_IN:
         for o in rnd.sample(outs, 3):
             scs.append({"pairs": [(i, o)], "wrap": False, "eval": False})
@@ -268,7 +271,10 @@ def run(prop="C14", propose=False, replay=None):
             extra = sorted(set(r["changed"]) - {o for _, o in sc["pairs"]})
             feat = {"k": "syncprops", "cl": cl, "npairs": len(sc["pairs"]), "wrap": sc["wrap"], "eval": sc["eval"], "kinds": kinds,
                     "in_kind": kinds[0][0], "out_kind": kinds[0][1], "exc": r["exc"], "extra_changed": [("<new>" if x.startswith("<new") else x) for x in extra],
-                    "in_ann": (sc["pairs"][0][0] not in ("b_plain",)), "comps": []}
+                    "in_ann": (sc["pairs"][0][0] not in ("b_plain",)), "comps": [],
+                    # an earlier pair gives its output node the *name* of its input; does a later pair address a sibling of that name?
+                    "rename_clash": any(pi[0].split(".")[-1] == pj[1].split(".")[-1] and pi[1].split(".")[:-1] == pj[1].split(".")[:-1] and pi[1] != pj[1]
+                                        for a, pi in enumerate(sc["pairs"]) for pj in sc["pairs"][a + 1:])}
             if matcher.match(feat) is None:
                 if propose:
                     unmatched.append(feat)
